@@ -16,6 +16,7 @@ RULE = ("stateless sequence exploration on every module instance of the (reduced
         "with g1, g2 measured once on fresh objects; EXACT snapshots: B and Z change no signal state, R changes no input "
         "state (value, type, shape) and no sensitivity. Non-trivial = sequence contains two B without Z in between or a "
         "combined seed; distinct by (descriptor, sequence)")
+RULE += " Extended in seeding rounds 6-7:  L=2 level whose first seed is a unit vector or a copy of an input state."
 ASSUMPTIONS = ["seeds are dense generic arrays (w1 on the first output only, w2 on all outputs; for matrix outputs w2 is a "
                "DyadCarrier); a missing (None) sensitivity counts as zero",
                "iterative-solver configurations are excluded (their sensitivities carry solver noise)",
